@@ -526,12 +526,12 @@ def judge_ov(ctx, vec, case, res):
             a = out['acc']
             ok = a['count'] == ea['count'] and near(a['wcount'], frac(ea['wcount']))
             det = 'rank %d count/wcount %r/%r expected %r/%r' % (r, a['count'], a['wcount'], ea['count'], float(frac(ea['wcount'])))
-            weighed = frac(ea['wcount']) != 0       # only zero weights so far: the mean is a placeholder, M2 is 0
+            weighed = frac(ea['wcount']) != 0       # only zero weights so far: mean and M2 are placeholders nobody reads
             if ok and ea['count'] > 0:
                 for ch, (ca, cb) in enumerate(zip(CHAN_A, CHAN_B)):
                     em = ca * float(frac(ea['mean'])) + cb
                     e2 = ca * ca * float(frac(ea['M2']))
-                    if not ((near(a['mean'][ch], em, 1.0) or not weighed) and near(a['M2'][ch], e2, 1.0)):
+                    if weighed and not (near(a['mean'][ch], em, 1.0) and near(a['M2'][ch], e2, 1.0)):
                         ok = False
                         det = 'rank %d channel %d mean/M2 %r/%r expected %r/%r' % (r, ch, a['mean'][ch], a['M2'][ch], em, e2)
             elif ok and a['mean'] is not None:
@@ -697,10 +697,36 @@ def validate_events(ctx, runs, label):
 def canary(ctx, by_tid, good):
     """Corrupt accepted runs; TLC must reject each corruption with the expected reason."""
     cands = [t for t in good if len(by_tid[t][0]['v']) >= 3 and by_tid[t][0]['nr'] >= 2]
-    if not cands:
+    zcands = [t for t in cands if any(x[0] == 0 for x in by_tid[t][0]['w']) and by_tid[t][0]['kind'] == 'ov']
+    cands = [t for t in cands if all(x[0] != 0 for x in by_tid[t][0]['w'])]
+    if not cands or not zcands:
         raise Machinery('no accepted run available for the canary')
     base = by_tid[cands[len(cands) // 2]][1]
     muts = []
+    # (0) zero weights: a zero-weight update that moves the weight sum; a NaN where the first positive weight
+    #     after zero weights must give the sample itself
+    zb = None
+    for t in zcands:
+        ev, acc_w = by_tid[t][1], {}
+        for k, e in enumerate(ev):
+            if e['ev'] != 'U':
+                continue
+            prev = acc_w.get(e['rank'], 0)
+            if e['w'][0] != 0 and prev == 0 and any(x['ev'] == 'U' and x['rank'] == e['rank'] for x in ev[:k]):
+                zb = (ev, k)
+                break
+            acc_w[e['rank']] = prev + e['w'][0]
+        if zb:
+            break
+    if zb is None:
+        raise Machinery('no accepted run with a positive weight after zero weights on one rank (canary)')
+    ev = [dict(e, tid=900005) for e in zb[0]]
+    ev[zb[1]]['mean'] = 5000000           # what _sc() logs for NaN
+    muts.append((900005, 'update', ev))
+    ev = [dict(e, tid=900006) for e in zb[0]]
+    z = next(e for e in ev if e['ev'] == 'U' and e['w'][0] == 0)
+    z['wc'] += 2500
+    muts.append((900006, 'update', ev))
     # (1) a sample processed twice (and another one never)
     ev = [dict(e, tid=900001) for e in base]
     us = [e for e in ev if e['ev'] == 'U']
@@ -901,7 +927,7 @@ def execute(ctx, runner, rng, vv, tv, q):
                     raise Machinery('simulated run failed: ' + res[1][-600:])
                 judge_ov(ctx, v, c, res)
                 zero = any(x[0] == 0 for x in c['w'])
-                if res[0] == 'ok' and ((v['n'] >= 4 and (not zero or rng.random() < ZSHARE)) or
+                if res[0] == 'ok' and ((v['n'] >= 4 and (not zero or v['nr'] == 2 or rng.random() < ZSHARE)) or
                                        rng.random() < n_trace_budget / float(len(vv) * 1.3)):
                     traced.append((c, res[1]))
     ctx.add_sample(dict(binding='A/C', path='OnlineVariance', vector={k: vv[len(vv) // 2][k] for k in ('nr', 'n', 'v', 'w', 'mean', 'var')}))
